@@ -15,10 +15,12 @@
      WatcherByEpoch : FALSE = watcher waits for the flag VALUE Reconnecting (as coded); TRUE = waits for a new outage epoch
      HookCurrent    : FALSE = waitUntil passes the TARGET status to the closed-hook (as coded); TRUE = the current status
      SwapGuarded    : FALSE = reconnect() panics when the status is not Reconnecting after a successful dial (as coded)
+     RetryByEpoch   : FALSE = send() swaps the status to Reconnecting on ANY connection-closed error (as coded): an error that stems from an
+                      already replaced connection tears the new one down (spurious second outage); TRUE = only if the epoch is unchanged
      SupervisorOrClosed : FALSE = the stream supervisor waits for Connected with WaitUntil (as coded): on a Closed connection it waits forever *)
 EXTENDS Integers, Sequences, FiniteSets, TLC, Json, SequencesExt, FiniteSetsExt
 
-CONSTANTS Streams, Callers, MaxFaults, MaxDialFails, MaxResumeNg, WatcherByEpoch, HookCurrent, SwapGuarded, SupervisorOrClosed, AllowClose
+CONSTANTS Streams, Callers, MaxFaults, MaxDialFails, MaxResumeNg, WatcherByEpoch, HookCurrent, SwapGuarded, SupervisorOrClosed, RetryByEpoch, AllowClose
 
 VARIABLES s, script
 vars == <<s, script>>
@@ -33,7 +35,7 @@ Init0 ==
     dialing |-> 0,                \* incarnation being established by reconnect()
     mu |-> "none",                \* holder of wireConnMu
     st |-> [x \in Streams |-> [pc |-> "watch", w |-> "parked", bound |-> 1, ep |-> 0, resumed |-> 0, closedErr |-> FALSE, resumeOn |-> {}]],
-    ca |-> [p \in Callers |-> [pc |-> "idle", w |-> "none", res |-> "", sentOn |-> {}]],
+    ca |-> [p \in Callers |-> [pc |-> "idle", w |-> "none", res |-> "", sentOn |-> {}, ep |-> 0]],
     cl |-> "idle",                \* Close pc
     closeRet |-> FALSE,
     tokens |-> 0, dials |-> 0, dialsAfterClose |-> 0, disc |-> 0, recon |-> 0, outages |-> 0,
@@ -148,7 +150,7 @@ ApiCall(p) ==
 \* WaitUntilOrClosed(Connected): the closed-hook is consulted before every wait
 SendWaitCheck(p) ==
     /\ s.ca[p].pc = "waitConn" /\ s.ca[p].w = "woken"
-    /\ IF s.cs = "connected" THEN s' = [s EXCEPT !.ca[p].pc = "wantMu", !.ca[p].w = "none"]
+    /\ IF s.cs = "connected" THEN s' = [s EXCEPT !.ca[p].pc = "wantMu", !.ca[p].w = "none", !.ca[p].ep = s.epoch]
        ELSE IF s.cs = "closed" /\ HookCurrent THEN s' = [s EXCEPT !.ca[p].pc = "done", !.ca[p].w = "none", !.ca[p].res = "connClosed"]
        ELSE s' = [s EXCEPT !.ca[p].w = "parked"]          \* as coded: hooker(target) never reports Closed: waits for the caller's context
     /\ Quiet
@@ -181,8 +183,9 @@ SendFailsDead(p) ==
 SendRetry(p) ==
     /\ s.ca[p].pc = "gotErr"
     /\ IF s.cs = "closed" THEN s' = [s EXCEPT !.ca[p].pc = "done", !.ca[p].res = "connClosed"]
-       ELSE s' = [SetCs(s, "reconnecting") EXCEPT !.ca[p].pc = "waitConn", !.ca[p].w = "woken",
-                                                  !.outages = IF s.cs = "connected" /\ s.alive /\ s.inc \notin s.wclosed THEN @ + 1 ELSE @]
+       ELSE IF RetryByEpoch /\ s.epoch # s.ca[p].ep
+            THEN s' = [s EXCEPT !.ca[p].pc = "waitConn", !.ca[p].w = "woken"]          \* stale error: just retry
+            ELSE s' = [SetCs(s, "reconnecting") EXCEPT !.ca[p].pc = "waitConn", !.ca[p].w = "woken"]
     /\ Quiet
 
 \* ---------------------------------------------------------------- Close
